@@ -5,6 +5,8 @@ import (
 	"encoding/json"
 	"fmt"
 	"math/big"
+	"sort"
+	"strings"
 
 	h "verif/harness"
 
@@ -13,6 +15,7 @@ import (
 	_ "github.com/artela-network/artela-evm/tracers/native"
 	avm "github.com/artela-network/artela-evm/vm"
 	"github.com/ethereum/go-ethereum/common"
+	"github.com/ethereum/go-ethereum/core/types"
 	evm "github.com/ethereum/go-ethereum/core/vm"
 	etracers "github.com/ethereum/go-ethereum/eth/tracers"
 	elogger "github.com/ethereum/go-ethereum/eth/tracers/logger"
@@ -147,8 +150,18 @@ func runTracerPair(dc DualCase, k tracerKind) (fout, rout string, err error) {
 		a := alogger.NewAccessListTracer(nil, dc.Tx.From, dc.Tx.To, avm.ActivePrecompiles(rulesF))
 		b := elogger.NewAccessListTracer(nil, dc.Tx.From, dc.Tx.To, evm.ActivePrecompiles(rulesF))
 		ft, rt = a, b
-		fget = func() string { j, _ := json.Marshal(a.AccessList()); return string(j) }
-		rget = func() string { j, _ := json.Marshal(b.AccessList()); return string(j) }
+		// AccessList() ranges over a map in both implementations: compare as a sorted list
+		canon := func(al types.AccessList) string {
+			sort.Slice(al, func(i, j int) bool { return bytes.Compare(al[i].Address[:], al[j].Address[:]) < 0 })
+			for _, t := range al {
+				ks := t.StorageKeys
+				sort.Slice(ks, func(i, j int) bool { return bytes.Compare(ks[i][:], ks[j][:]) < 0 })
+			}
+			j, _ := json.Marshal(al)
+			return string(j)
+		}
+		fget = func() string { return canon(a.AccessList()) }
+		rget = func() string { return canon(b.AccessList()) }
 	default:
 		a, e1 := atracers.DefaultDirectory.New(k.name, tctxA(), json.RawMessage(k.cfg))
 		b, e2 := etracers.DefaultDirectory.New(k.name, tctxE(), json.RawMessage(k.cfg))
@@ -181,7 +194,8 @@ func runC18(c Case, tier string) (res CaseResult) {
 		if !ok {
 			return
 		}
-		if _, unb := buildFrames(fs.L); unb != "" {
+		if _, unb := buildFrames(fs.L); unb != "" && !(strings.Contains(unb, "outside any Start") && dc.Tx.Entry != h.ECall && dc.Tx.Entry != h.ECreate && dc.Tx.Entry != h.ECreate2) {
+			// (CallCode/DelegateCall/StaticCall invoked at depth 0 announce themselves with Enter on both implementations)
 			res.Fail(Key("balance", "plain"), "fork tracer stream unbalanced: "+unb, dc.Desc)
 		}
 		opsCovered(&res, fs.L)
@@ -202,6 +216,14 @@ func runC18(c Case, tier string) (res CaseResult) {
 	case "tracer":
 		k := pairedTracers[c.P[0]]
 		dc := genDual(c.Seed, h.Shanghai, func(o *h.GenOpts) { o.CallBias = 25 })
+		// The inherited tracers are attached by a chain to transactions, which enter the VM through
+		// Call or Create only; CallCode/DelegateCall/StaticCall at depth 0 emit no CaptureStart on
+		// either implementation (several tracers then dereference a nil env on both sides).
+		switch dc.Tx.Entry {
+		case h.ECallCode, h.EDelegateCall, h.EStaticCall:
+			dc.Tx.Entry = h.ECall
+			dc.Tx.From = h.Sender
+		}
 		// domain: classify with a plain recorded run of the reference and the fork
 		rs := h.NewRefSession(dc.World, dc.Env, h.RefOpts{Debug: true, RecSteps: true, LightMem: true})
 		rs.Invoke(dc.Tx)
